@@ -117,7 +117,12 @@ static void classify_san_text(const std::string & path, const std::string & txt,
         std::string rest = line.substr(p + 15);
         // keep the kind generic: strip numbers
         std::string k;
-        for (char c : rest) { if (isdigit((unsigned char)c)) { if (k.empty() || k.back() != '#') k += '#'; } else k += c; }
+        // addresses first (0x followed by hex digits: they differ from process to process), then every other number
+        for (size_t i = 0; i < rest.size();) {
+          if (rest[i] == '0' && i + 1 < rest.size() && rest[i + 1] == 'x') { size_t j = i + 2; while (j < rest.size() && isxdigit((unsigned char)rest[j])) j++; k += "ADDR"; i = j; }
+          else if (isdigit((unsigned char)rest[i])) { if (k.empty() || k.back() != '#') k += '#'; i++; }
+          else k += rest[i++];
+        }
         kind = "ubsan:" + k.substr(0, 60);
         // ubsan prefix carries file:line
         size_t r = line.find(repo_dir() + "/");
